@@ -78,6 +78,9 @@ CHECKS = {
 NOT_BUILT_REASON = "not built yet in this round (planned, see DESIGN.md section 5); no claim is made"
 NOT_APPLICABLE = {}
 
+# builder-delivered checks are only claimed once reviewed and listed here
+READY = {"C27"}
+
 
 def _load_from_notes() -> None:
     """Registry entries delivered by component builders live in notes/Cxx.md as a python block."""
@@ -103,7 +106,7 @@ def _load_from_notes() -> None:
                 if isinstance(v, dict) and {"category", "text", "note", "technique"} <= set(v):
                     v.setdefault("design_ref", "5/" + k)
                     # only claim it when the check module exists
-                    if (Path(__file__).resolve().parent / "props" / f"{k}.py").exists():
+                    if k in READY and (Path(__file__).resolve().parent / "props" / f"{k}.py").exists():
                         CHECKS.setdefault(k, v)
 
 
